@@ -9,6 +9,8 @@ pub mod util;
 pub mod rbac;
 #[path = "agent/proxy.rs"]
 pub mod proxy;
+#[path = "agent/canon.rs"]
+pub mod canon;
 
 pub fn main() {
     let engine = std::env::var("VERIF_ENGINE").unwrap_or_default();
@@ -16,6 +18,7 @@ pub fn main() {
     match engine.as_str() {
         "rbac" => rbac::run(),
         "proxy" => proxy::run(),
+        "canon" => canon::run(),
         _ => {
             eprintln!("unknown engine {:?}", engine);
             std::process::exit(2);
